@@ -161,16 +161,25 @@ func (c19) Run(c *mon.Ctx, i int) {
 		// four slots are left); at those points repeats from just beyond the
 		// window are on offer
 		k := i / 10
-		for t := 0; t < 20; t++ {
+		// twenty trials per case walk K through 1500..4400; eight stay within eight
+		// of the values at which a changed fallback was seen to matter (they move a
+		// little with the data), with a level served by the level-2 match finder
+		centres := []int{1625, 3851, 5986, 8250}
+		for t := 0; t < 28; t++ {
 			K := 1500 + (k*20+t)%2900
-			dd := tokenCapFarCopy(r, K, 60000, W+1+r.Intn(3))
+			st := s
+			if t >= 20 {
+				K = centres[(k+t)%4] - 8 + r.Intn(17)
+				st.Level = []int{2, -1, 2, 6}[r.Intn(4)]
+			}
+			dd := tokenCapFarCopy(r, K, 100000, W+1+r.Intn(3))
 			oo := []gen.Op{{Kind: "write", N: len(dd.B)}, {Kind: "close"}}
-			o, e := emit(c.API, s, dd.B, oo)
+			o, e := emit(c.API, st, dd.B, oo)
 			if e != nil {
 				c.Count("dropped:writer-error", 1)
 				continue
 			}
-			c19Verify(c, -1, s, W, dd, oo, o, false)
+			c19Verify(c, -1, st, W, dd, oo, o, false)
 		}
 		c.Count("token-cap-sweep-cases", 1)
 	}
